@@ -566,7 +566,7 @@ impl<E: Endpoint> World<E> {
     }
 }
 
-const SIZES: [usize; 23] = [0, 1, 2, 15, 16, 17, 63, 64, 100, 500, 1000, 1022, 1023, 1024, 1025, 1386, 1387, 1388, 1389, 1390, 1391, 1400, 2000];
+const SIZES: [usize; 30] = [0, 1, 2, 15, 16, 17, 63, 64, 100, 500, 1000, 1022, 1023, 1024, 1025, 1383, 1384, 1385, 1386, 1387, 1388, 1389, 1390, 1391, 1392, 1393, 1394, 1395, 1400, 2000];
 
 fn payload(r: &mut Rng, max_ok: usize, allow_too_long: bool) -> Vec<u8> {
     let n = match r.below(10) {
@@ -669,6 +669,34 @@ impl<E: Endpoint> World<E> {
             }
         }
     }
+    /// C02, handshake half: once the network stops misbehaving and both sides tick at their deadlines, the
+    /// connecting side becomes ready (and, with something to say, the acceptor goes online too)
+    fn fair_handshake(&mut self, o: &Shared) -> bool {
+        for _round in 0..30 {
+            for dir in 0..2 {
+                let n = self.bag[dir].len();
+                for _ in 0..n {
+                    if self.proto == "6nt" && dir == 0 {
+                        let d = &mut self.bag[0][0];
+                        if d.bytes.len() == 12 && d.bytes[3] == 1 { d.bytes.truncate(4); }
+                    }
+                    if self.admissible(dir, 0) { self.apply(o, &Label::Deliver(dir, 0, false)); } else { self.apply(o, &Label::Drop(dir, 0)); }
+                }
+            }
+            if self.s[0].dead || self.s[1].dead { return false; }
+            if self.online(0) && self.s[0].ready == 1 { return true; }
+            if !(self.bag[0].is_empty() && self.bag[1].is_empty()) { continue; }
+            let dl: Vec<Option<u64>> = (0..2).map(|i| self.s[i].ep.as_ref().and_then(|e| e.needs_tick().parse::<u64>().ok())).collect();
+            match dl.iter().flatten().min().copied() {
+                Some(t) => {
+                    if t > self.now { self.apply(o, &Label::Clock(t - self.now)); }
+                    for i in 0..2 { if dl[i].map(|x| x <= self.now).unwrap_or(false) { self.apply(o, &Label::Tick(i)); } }
+                }
+                None => return false,
+            }
+        }
+        false
+    }
     /// the fair suffix of C02: every datagram delivered once in order, ticks at the deadlines
     fn fair_suffix(&mut self, o: &Shared) -> bool {
         for _round in 0..60 {
@@ -717,7 +745,28 @@ fn run_proto<E: Endpoint>(a: &Args, o: &Shared, proto: &str, modes: &[&str]) {
             }
             match *mode {
                 "link" | "fair" => {
-                    let lossy = r.chance(1, 2); w.handshake(o, &mut r, lossy);
+                    let lossy = r.chance(1, 2);
+                    if *mode == "fair" && r.chance(1, 2) {
+                        // a misbehaving prefix of the handshake (every datagram lost with probability 1/2, one
+                        // early tick), then the fair suffix must make the connecting side ready
+                        w.apply(o, &Label::Connect(0));
+                        for _ in 0..(1 + r.below(5)) {
+                            for dir in 0..2 {
+                                while !w.bag[dir].is_empty() {
+                                    if proto == "6nt" && dir == 0 { let d = &mut w.bag[0][0]; if d.bytes.len() == 12 && d.bytes[3] == 1 { d.bytes.truncate(4); } }
+                                    if r.chance(1, 2) { w.apply(o, &Label::Drop(dir, 0)); } else { w.apply(o, &Label::Deliver(dir, 0, false)); }
+                                }
+                            }
+                            if r.chance(1, 2) { w.apply(o, &Label::Clock(*r.pick(&[100_000u64, 500_000, 500_001]))); w.apply(o, &Label::Tick(r.below(2) as usize)); }
+                        }
+                        let st0 = state_of(&w.fp(0)).to_string();
+                        if !(w.s[0].dead || w.s[1].dead) && matches!(st0.as_str(), "Connecting" | "Token" | "Online") {
+                            let ok = w.fair_handshake(o);
+                            let (fa, fb) = (w.fp(0), w.fp(1));
+                            o.lock().unwrap().check(ok, "-", &trace, || format!("C02: the connecting side is not ready after 30 fair rounds of the handshake; A={} B={}", fa, fb));
+                        }
+                    }
+                    if !w.online(0) && state_of(&w.fp(0)) == "Unconnected" { w.handshake(o, &mut r, lossy); }
                     let loss = *r.pick(&[0u64, 5, 20, 40]);
                     let steps = if th { 40 + r.below(400) } else { 30 + r.below(150) };
                     for _ in 0..steps { w.random_step(o, &mut r, max_chunk, loss); if w.s[0].dead || w.s[1].dead { break; } }
@@ -765,7 +814,7 @@ fn run_proto<E: Endpoint>(a: &Args, o: &Shared, proto: &str, modes: &[&str]) {
                             0..=13 => { let d = if tiny_run { vec![7u8; r.below(3) as usize] } else { { let tl = r.chance(1, 10); payload(&mut r, max_chunk, tl) } }; let v = r.chance(1, 2); if queue_len(&w.fp(0)) < 480 { w.apply(o, &Label::Send(0, d, v)); } }
                             14 => w.apply(o, &Label::Flush(0)),
                             15..=16 => { w.apply(o, &Label::Clock(*r.pick(&[400_000u64, 600_000, 1_000_001]))); w.apply(o, &Label::Tick(0)); }
-                            17 => { let d = payload(&mut r, 1390, true); w.apply(o, &Label::Connless(0, d)); }
+                            17 => { let d = if r.chance(1, 2) { vec![0x41u8; *r.pick(&[1386usize, 1387, 1388, 1389, 1390, 1391, 1392, 1393, 1394, 1395, 1396, 1397, 1398, 1400, 1401])] } else { payload(&mut r, 1390, true) }; w.apply(o, &Label::Connless(0, d)); }
                             18..=20 => { for dir in 0..2 { while !w.bag[dir].is_empty() { if r.chance(1, 3) && w.admissible(dir, 0) { w.apply(o, &Label::Deliver(dir, 0, false)); } else { w.apply(o, &Label::Drop(dir, 0)); } } } }
                             21 => { if w.online(1) { w.apply(o, &Label::Send(1, vec![1], true)); w.apply(o, &Label::Flush(1)); } }
                             22 => w.apply(o, &Label::Tick(0)),
